@@ -167,6 +167,7 @@ pub fn short_op(o: &Op, plan: &Plan) -> String {
         OpKind::ReclaimSnap {} => format!("#{} snap", o.id),
         OpKind::ListDir { dir } => format!("#{} ls({})", o.id, dir),
         OpKind::RemoveFile { path } => format!("#{} rm({})", o.id, path),
+        OpKind::Mutate { target, action, off, len, arg, .. } => format!("#{} damage({},{},off={},len={},arg={})", o.id, target, action, off, len, arg),
     }
 }
 
@@ -390,6 +391,7 @@ pub fn scenario(id: &str) -> Option<Box<dyn Scenario>> {
         "C16" => Box::new(DiffScenario),
         "C12" => Box::new(ReclaimScenario),
         "C13" => Box::new(MultiScenario),
+        "C11" => Box::new(crate::corrupt::CorruptScenario),
         "C05" => Box::new(crate::conc::ConcScenario { id: "C05" }),
         "C07" => Box::new(crate::crash::CrashScenario { mode: crate::crash::Mode::C07 }),
         "C08" => Box::new(crate::crash::CrashScenario { mode: crate::crash::Mode::C08 }),
